@@ -364,8 +364,9 @@ def run_check(prop, modname, tier, seed):
         cov['evaluations'] = st.paths
         cov['distinct_nontrivial'] = sum(v for k, v in total.notes.items() if k.startswith('nontrivial'))
         cov['rule'] += '; distinct_nontrivial = paths on which an injected crash/fault actually fired inside a build'
-    os.makedirs(os.path.join(VERIF, 'evidence'), exist_ok=True)
-    with open(os.path.join(VERIF, 'evidence', prop + '.json'), 'w') as fh:
+    evdir = os.environ.get('VERIF_EVIDENCE_DIR') or os.path.join(VERIF, 'evidence')
+    os.makedirs(evdir, exist_ok=True)
+    with open(os.path.join(evdir, prop + '.json'), 'w') as fh:
         json.dump(ev, fh, indent=1, sort_keys=True, default=str)
     printed = set()
     for kn, p, c in known_hits:
